@@ -42,6 +42,7 @@ def nbaLeaf : VExpr → Int → Pending → Pending
   | .id i w _, v, p => ⟨i, 0, w, tn w v⟩ :: p
   | .psel (.id i _ _) hi lo, v, p => ⟨i, lo, hi - lo + 1, tn (hi - lo + 1) v⟩ :: p
   | .bsel (.id i _ _) k, v, p => ⟨i, k, 1, tn 1 v⟩ :: p
+  | .concat [.id i w _], v, p => ⟨i, 0, w, tn w v⟩ :: p          -- `{x}` (nested in a concatenation target)
   | _, _, p => p
 
 /-- Elements of a concatenation target, least significant element first. -/
